@@ -56,11 +56,25 @@ func lockOp(c *ssa.CallCommon) (op string, path string) {
 	}
 	switch callee.Name() {
 	case "Lock", "RLock":
-		return "lock", valuePath(c.Args[0])
+		return "lock", lockPath(c.Args[0])
 	case "Unlock", "RUnlock":
-		return "unlock", valuePath(c.Args[0])
+		return "unlock", lockPath(c.Args[0])
 	}
 	return "", ""
+}
+
+// lockPath names a mutex by the struct type that owns it and its access path ("apiHandler|h.mutex"), so that two
+// rules whose mutex fields have the same name do not see each other's locks.
+func lockPath(v ssa.Value) string {
+	owner := ""
+	if fa, ok := v.(*ssa.FieldAddr); ok {
+		if pt, ok := fa.X.Type().Underlying().(*types.Pointer); ok {
+			if n, ok := pt.Elem().(*types.Named); ok {
+				owner = n.Obj().Name()
+			}
+		}
+	}
+	return owner + "|" + valuePath(v)
 }
 
 func runProtectRules(p *Program, id string) ([]*Gen, []string) {
@@ -214,7 +228,7 @@ func runProtectRules(p *Program, id string) ([]*Gen, []string) {
 						pos := strings.TrimPrefix(p.Fset.Position(x.Pos()).String(), p.Repo+"/")
 						o := &Oblig{Name: fmt.Sprintf("%s#lock:%s.%s.%d", key, name, fname, count[key]), Kind: "lock", Goal: "true", Pos: pos, Pre: "unsat", AutoSite: true,
 							Text: "protect " + name + ": access to " + kv["type"] + "." + fname + " requires " + valuePath(x.X) + "." + kv["mutex"] + " to be held"}
-						need := valuePath(x.X) + "." + kv["mutex"]
+						need := kv["type"] + "|" + valuePath(x.X) + "." + kv["mutex"]
 						if freshRoot(x.X) {
 							o.Solver = "exempt"
 							o.Text += " [object under construction]"
@@ -223,12 +237,32 @@ func runProtectRules(p *Program, id string) ([]*Gen, []string) {
 							o.Model = "lock " + need + " is not held on every path to " + pos + " (held: " + strings.Join(keysOf(held), ",") + ")"
 						}
 						g.Obligs = append(g.Obligs, o)
+					case *ssa.Send:
+						// a send on a channel blocks until a receiver (or buffer space) is available: doing it while the
+						// protected mutex is held makes every other user of the mutex wait for that receiver too
+						var heldProt []string
+						for l := range held {
+							if strings.HasSuffix(l, "."+kv["mutex"]) && strings.HasPrefix(l, kv["type"]+"|") {
+								heldProt = append(heldProt, l)
+							}
+						}
+						if len(heldProt) > 0 {
+							count[key+"/s"]++
+							o := &Oblig{Name: fmt.Sprintf("%s#lock:%s.no-send-under-lock.%d", key, name, count[key+"/s"]), Kind: "lock", Goal: "true", Pre: "sat", AutoSite: true,
+								Pos: strings.TrimPrefix(p.Fset.Position(x.Pos()).String(), p.Repo+"/"), Text: "protect " + name + ": no blocking channel send while the mutex is held"}
+							o.Model = "sends on " + valuePath(x.Chan) + " while holding " + strings.Join(heldProt, ",")
+							if kv["scenario"] != "" {
+								o.ReplayTemplate = kv["scenario"]
+								o.ReplayPkgDir = strings.TrimPrefix(strings.TrimPrefix(d.Pkg, modPath), "/")
+							}
+							g.Obligs = append(g.Obligs, o)
+						}
 					case *ssa.Call:
 						// never wait for another goroutine while holding the protected mutex
 						if callee := x.Call.StaticCallee(); callee != nil {
 							var heldProt []string
 							for l := range held {
-								if strings.HasSuffix(l, "."+kv["mutex"]) {
+								if strings.HasSuffix(l, "."+kv["mutex"]) && strings.HasPrefix(l, kv["type"]+"|") {
 									heldProt = append(heldProt, l)
 								}
 							}
